@@ -208,6 +208,57 @@ fn parse_forced(line: &str) -> Option<(Vec<bool>, Vec<usize>)> {
     Some((fails, sched))
 }
 
+/// The caller side of the protocol on the REAL commit path (`Database::execute_small_commit`): a leader
+/// whose WAL write fails must report the failure AND leave the queue usable (`fail_batch`: members
+/// marked, `flush_in_progress` cleared).  The write failure is produced with RLIMIT_FSIZE = 0 (every
+/// write(2) to a regular file fails with EFBIG, SIGXFSZ ignored) around one COMMIT; afterwards a
+/// second handle must be able to commit promptly.
+fn real_flush_failure_scenario(ctx: &Ctx, rep: &mut Report) {
+    use crate::sqlgen::*;
+    let case = "real commit path: COMMIT of handle A fails in the WAL write (RLIMIT_FSIZE=0); then handle B commits".to_string();
+    rep.case(Some(&case));
+    rep.count("real_flush_failure_scenarios");
+    let dbh = Dbh::create(ctx, "c37-efbig");
+    for s in ["PRAGMA wal=ON", "PRAGMA synchronous=FULL", "CREATE TABLE t (id INT PRIMARY KEY, v INT)", "INSERT INTO t VALUES (1, 10)", "INSERT INTO t VALUES (2, 20)", "BEGIN", "UPDATE t SET v = 11 WHERE id = 1", "COMMIT"] {
+        if let Out::Err(e) = dbh.exec(s) { rep.notes.push(format!("flush-failure scenario setup failed: {s}: {e}")); return; }
+    }
+    let a = dbh.db.as_ref().unwrap().clone();
+    let b = dbh.db.as_ref().unwrap().clone();
+    let _ = a.execute("BEGIN");
+    let _ = a.execute("UPDATE t SET v = 12 WHERE id = 1");
+    // ---- every file write fails from here
+    let mut old = libc::rlimit { rlim_cur: 0, rlim_max: 0 };
+    let res_a = unsafe {
+        libc::signal(libc::SIGXFSZ, libc::SIG_IGN);
+        libc::getrlimit(libc::RLIMIT_FSIZE, &mut old);
+        let zero = libc::rlimit { rlim_cur: 0, rlim_max: old.rlim_max };
+        libc::setrlimit(libc::RLIMIT_FSIZE, &zero);
+        let r = guarded(std::panic::AssertUnwindSafe(|| a.execute("COMMIT")));
+        libc::setrlimit(libc::RLIMIT_FSIZE, &old);
+        r
+    };
+    let a_failed = !matches!(res_a, Ok(Ok(_)));
+    if !a_failed {
+        // the write did not fail (limit not effective here): nothing to check
+        rep.count("real_flush_failure:write-did-not-fail(skipped)");
+        return;
+    }
+    let _ = a.execute("ROLLBACK");
+    let (tx, rx) = std::sync::mpsc::channel();
+    let t0 = std::time::Instant::now();
+    std::thread::spawn(move || {
+        let _ = b.execute("BEGIN");
+        let _ = b.execute("UPDATE t SET v = 21 WHERE id = 2");
+        let r = b.execute("COMMIT").map(|_| ()).map_err(|e| format!("{e:#}"));
+        let _ = tx.send(r);
+    });
+    match rx.recv_timeout(std::time::Duration::from_secs(12)) {
+        Ok(Ok(())) => { rep.count("real_flush_failure:next-commit-ok"); }
+        Ok(Err(e)) => rep.oracle_fail(case.clone(), format!("after a commit whose WAL write failed, the next COMMIT of another handle fails after {:.1}s: {e}", t0.elapsed().as_secs_f64()), "gc-real:commit-after-failed-flush:error".into()),
+        Err(_) => rep.oracle_fail(case.clone(), "after a commit whose WAL write failed, the next COMMIT of another handle has not returned within 12 s (the failed leader left the queue's flush_in_progress flag set / its batch unmarked)".into(), "gc-real:commit-after-failed-flush:stuck".into()),
+    }
+}
+
 pub fn run(ctx: &Ctx) -> Report {
     let mut rep = Report::new(
         "groupcommit",
@@ -216,8 +267,9 @@ pub fn run(ctx: &Ctx) -> Report {
          take_pending, write, mark, clear flag) by the forced Lean counterexample schedules or a seeded random scheduler; condvar waits are \
          predicted by the model and confirmed by a no-progress window, wake-ups after notify_all are compared thread by thread. Oracle: \
          success implies the payload is in the log at that moment, nothing logged twice, a failed batch reports failure to all its members, \
-         nobody stuck, nothing left pending. non-trivial = distinct case with >= 3 committers",
+         nobody stuck, nothing left pending. Real commit path: one COMMIT whose WAL write fails (RLIMIT_FSIZE = 0), after which another handle must commit within 12 s. non-trivial = distinct case with >= 3 committers",
     );
+    if ctx.replay.is_none() { real_flush_failure_scenario(ctx, &mut rep); }
     let mut rng = Rng::new(ctx.seed);
     let mut model = Model::spawn(&ctx.model_bin, "groupcommit");
     let cex = [0usize, 1, 0, 1, 0, 0, 2, 2, 0, 0, 2, 1, 2];
